@@ -11,7 +11,11 @@
                      numbered (seq box, applySeq), with or without updatePtsChanged; recoveries,
                      timer firings, startup; channels tracked from the start or by their first
                      pushed update), each carrying the server's visible horizon
-     accounted s e tr := Deliver s (eid e) is in tr, or some TooLong s from to with
+     MAffected vis id  (an operation like any other in ops) Manager.HandleAffected for log entry
+                     id, our own action: a count-only marker goes through the pts box (or the
+                     channel's box); when the box passes it the trace gets Skip s id instead of
+                     Deliver s id (nothing is dispatched, the position is stored)
+     accounted s e tr := Deliver s (eid e) or Skip s (eid e) is in tr, or some TooLong s from to with
                      from < pos e <= to is in tr (the callback reports the range it skips)
      server_ok c     the contract assumed of the server's policy, which is otherwise ARBITRARY
                      (any function of log, horizon and request choosing intermediate states,
@@ -167,6 +171,16 @@ Proof. vm_compute. reflexivity. Qed.
 Print Assumptions C01_manager_dup_before_repair.
 Example C01_manager_dup_repaired :
   seq_delivers (mtr (mrun w_dcfg w_dlog w_dops)) = [(0, 1); (0, 2); (0, 3)].
+Proof. vm_compute. reflexivity. Qed.
+
+(* results of our own actions (HandleAffected) are inside every theorem above; the scenario of
+   a marker overtaking the update before it (channel box at 0, marker for pts 2 first, then
+   the update at pts 1, then pts 3): the marker waits in the box, nothing is skipped *)
+Example C01_affected_marker_does_not_skip :
+  mtr (mrun (cfg0 3 (fun _ => 0) 0) [E 1 4 2 1 1; E 2 5 2 2 1; E 3 4 2 3 1]
+            [MStartup (vis_of [0; 0; 0]); MAffected (vis_of [0; 0; 3]) 2;
+             MPushC (vis_of [0; 0; 3]) 1 0 [1] false; MPushC (vis_of [0; 0; 3]) 2 0 [3] false])
+  = [Persist 2 0; Deliver 2 1; Skip 2 2; Persist 2 2; Deliver 2 3; Persist 2 3].
 Proof. vm_compute. reflexivity. Qed.
 
 (* non-vacuity: a well-formed log with unique ids, a history satisfying vis_ok: numbered
